@@ -357,9 +357,9 @@ def corpus_docs():
 
 
 def run(ctx):
-    ctx.level = "other"
     thorough = ctx.thorough()
     proved = common.proof_stage(ctx)
+    ctx.level = "proof" if proved else "other"
     judge, jlog = common.build_judge()
     bindir, hlog = common.build_harness()
     exe, slog = common.build_server()
@@ -581,9 +581,15 @@ def run(ctx):
             "fail if the collected ranges lie in the token vector (C03_ranges_inside, hypothesis explicit).  With C04's round-trip theorem: every "
             "TEXT that lexes to the tokens of a well-typed abstract program (comments in any gap) gets no diagnostic (C03_no_false_positive; the "
             "lexer's output is a hypothesis), and every text that lexes to a program with exactly one semantic fault in a body gets exactly that one "
-            "diagnostic with the byte range of its tokens (C03_single_semantic_fault, C03_statement_semantic).  NOT PROVED: C03_full_statement - program-level "
-            "single-fault statements for the 10 declaration rules and the missing-token faults, the identification of node ranges with the "
-            "culprit's tokens for faulty programs, and the lexer side (text of a layout -> tokens); these are validated below.  VALIDATED by this run: the models agree with the "
+            "diagnostic with the byte range of its tokens (C03_single_semantic_fault, C03_statement_semantic).  The same for the 10 DECLARATION rules "
+            "(Proofs/DeclFaults*.v: decl_fault_program, one constructor per rule - undefined type / not a type / redeclaration as type, procedure, "
+            "parameter, variable / must be a reference parameter / main missing / main not a procedure / main with parameters - the rest of the "
+            "program valid w.r.t. the table the faulty declaration leaves): exactly the prescribed diagnostic(s), at tree level "
+            "(C03_single_declaration_fault) and from texts on (C03_single_declaration_fault_text, C03_main_is_missing_text, "
+            "C03_main_is_not_a_procedure_text), hence C03_statement_declaration and C03_full_statement_declaration: the statement of the property "
+            "for all the rule classes it lists.  NOT PROVED: missing-token SYNTAX faults (no Coq definition; not among the rules the property "
+            "lists), programs that USE an entity whose type is unknown because of the fault (the model suppresses follow-up errors; evaluated only), "
+            "and the lexer side (text of a layout -> tokens: C06); these are validated below.  VALIDATED by this run: the models agree with the "
             "implementation on every generated document (extracted judge) and on a sample in the kernel; the oracle checks on the "
             "implementation itself that well-typed programs get no diagnostic, each single-fault variant gets exactly the prescribed "
             "diagnostic(s) with the byte range of the culprit (leading comments of statement/expression nodes included, names bare), all "
@@ -591,7 +597,8 @@ def run(ctx):
     })
     ctx.assumptions = [
         "the lexer maps a rendered program to the intended tokens (checked per fault document with the real lexer; C06 is about the lexer)",
-        "single-fault variants and their culprit spans are defined by tools/splfaults.py (python), not by a Coq definition",
+        "the theorems' single-fault variants are the Coq relations fault_program (semantic rules) and decl_fault_program (declaration rules); "
+        "the oracle's variants and culprit spans are defined independently by tools/splfaults.py",
         "MainIsMissing has no offending construct: only 'inside the document' is required of its range",
         "statement/expression diagnostics cover the node including the comments directly in front of it (the parser's node ranges, C04)",
         "serde/lsp-types JSON mapping trusted; positions compared with an LSP-spec position function written in python (the model of "
